@@ -36,9 +36,9 @@ LOCK_RELEASE = "gc_lock::GarbageCollectionLock::release"
 ERR_ALLOWED = {
     ("band::band_version_supported", "semver::Version::parse", "unwrap_or"):
         "conservative: a version string that does not parse counts as unsupported, so Band::open fails with UnsupportedBandVersion",
-    ("archive::Archive::list_band_ids", "core::str::<impl str>::parse", "ok"):
+    ("archive::Archive::list_band_ids", "core::str::<impl str>::parse", "*"):
         "a directory whose name is not a band id is not a band",
-    ("index::IndexRead::hunks_available", "core::str::<impl str>::parse", "ok"):
+    ("index::IndexRead::hunks_available", "core::str::<impl str>::parse", "*"):
         "a file whose name is not a hunk number is not a hunk",
 }
 
@@ -277,7 +277,7 @@ def run(ck, w):
             n_sites += 1
             if s.fate in ("swallowed", "logged", "reported"):
                 k = (b.root, s.callee_short(), s.detail)
-                if k in ERR_ALLOWED or errscope.allowed_kind_conversion(s):
+                if k in ERR_ALLOWED or (k[0], k[1], "*") in ERR_ALLOWED or errscope.allowed_kind_conversion(s):
                     continue
                 bad_sites.append(s)
     ck.floor("C05.6.n", "fallible storage/decoding call sites under referenced_blocks", n_sites, 8)
@@ -305,6 +305,7 @@ def run(ck, w):
         ck.ok(o)
     common.cli_option(ck, w, "C05.3c", "DeleteOptions", "dry_run", ("param", "dry_run"), floor=2)
     _references_complete(ck, w)
+    common.list_blocks_present_set(ck, w, "C05.5i", "C05.5i0")
 
 
 NARROWING = re.compile(r"Iterator::(rev|skip|take|step_by|filter|filter_map|take_while|skip_while|find|nth|last|map_while)$|<impl \[T\]>::(first|last|split_at|split_first|split_last|get)$|Vec::<T, A>::(truncate|pop|remove|swap_remove|drain|retain|dedup\w*)$")
